@@ -54,10 +54,19 @@ def build(spec):
     from curtsies.formatstring import FmtStr, fmtstr
 
     f = None
+    parts = []
     for text, atts in spec:
         part = fmtstr(text, **dict(atts))
+        parts.append(part)
         f = part if f is None else f + part
-    return FmtStr() if f is None else f
+    if f is None:
+        return FmtStr()
+    if [c.s for c in f.chunks] != [c.s for part in parts for c in part.chunks]:
+        # `+` did not keep the runs of its operands apart (it folded or dropped one): the universe must still hold the
+        # layout the spec names, or every check that builds its operands this way silently loses the values with empty or
+        # adjacent runs.  Put the runs of the parts side by side without going through `+`.
+        f = FmtStr(*[c for part in parts for c in part.chunks])
+    return f
 
 
 P3 = (
